@@ -306,12 +306,35 @@ func parseTrace(raw, dir string) []SysCall {
 	fdKind := map[string]string{} // main-thread view of descriptors -> kind of file
 	var out []SysCall
 	in := false
+	pendingOpen := map[string]string{} // tid -> args of an openat whose result is still to come
+	pendingOut := map[string]int{}     // tid -> index in out of a recorded call whose result is still to come
 	for _, l := range lines {
-		// unfinished/resumed lines of the main thread: treat "<unfinished ...>" as the call start
+		// a call that another thread's output interrupted is printed in two parts:
+		// "<tid> name(args <unfinished ...>" and "<tid> <... name resumed>rest) = ret".
+		// The first part is the call (its place in the sequence), the second completes it.
 		if strings.Contains(l, "<unfinished") {
 			idx := strings.Index(l, "<unfinished")
 			l = strings.TrimSpace(l[:idx]) + ") = ?"
 		} else if strings.Contains(l, "resumed>") {
+			if rm := resumedRe.FindStringSubmatch(l); rm != nil {
+				tid, rname, ret := rm[1], rm[2], rm[4]
+				if a, ok := pendingOpen[tid]; ok && rname == "openat" {
+					delete(pendingOpen, tid)
+					if q := quoted.FindStringSubmatch(a); q != nil {
+						if fd := strings.Fields(ret); len(fd) > 0 && !strings.HasPrefix(ret, "-1") {
+							k := fileKind(filepath.Base(q[1]))
+							if q[1] == dir || strings.Contains(a, "O_DIRECTORY") {
+								k = "dir"
+							}
+							fdKind[fd[0]] = k
+						}
+					}
+				}
+				if i, ok := pendingOut[tid]; ok && i < len(out) && out[i].Name == rname {
+					out[i].Ret = ret
+					delete(pendingOut, tid)
+				}
+			}
 			continue
 		}
 		m := lineRe.FindStringSubmatch(l)
@@ -319,6 +342,9 @@ func parseTrace(raw, dir string) []SysCall {
 			continue
 		}
 		name, args, ret := m[2], m[3], m[4]
+		if name == "openat" && ret == "?" {
+			pendingOpen[m[1]] = args
+		}
 		if name == "openat" {
 			// descriptors are process-wide: follow opens of every thread
 			if q := quoted.FindStringSubmatch(args); q != nil {
@@ -349,6 +375,9 @@ func parseTrace(raw, dir string) []SysCall {
 		if name == "openat" && !strings.Contains(args, "O_CREAT") && !strings.Contains(args, "O_TRUNC") {
 			// plain opens change nothing; keep directory opens for the lint only
 			out = append(out, SysCall{Name: name, Ordinal: counts[name], Args: args, Ret: ret, Role: "open-existing"})
+			if ret == "?" {
+				pendingOut[m[1]] = len(out) - 1
+			}
 			continue
 		}
 		role := callRole(name, args, dir)
@@ -362,9 +391,14 @@ func parseTrace(raw, dir string) []SysCall {
 			role = name + "(" + k + ")"
 		}
 		out = append(out, SysCall{Name: name, Ordinal: counts[name], Args: args, Ret: ret, Role: role})
+		if ret == "?" {
+			pendingOut[m[1]] = len(out) - 1
+		}
 	}
 	return out
 }
+
+var resumedRe = regexp.MustCompile(`^(\d+)\s+<\.\.\.\s+(\w+)\s+resumed>(.*)\)\s+=\s+(.*)$`)
 
 var quoted = regexp.MustCompile(`"([^"]*)"`)
 
